@@ -9,7 +9,8 @@ from pathlib import Path, PosixPath, WindowsPath
 from typing import Any, Callable
 
 from _griffe import expressions
-from _griffe.enumerations import Kind, ParameterKind
+from _griffe.docstrings import models as docstrings
+from _griffe.enumerations import DocstringSectionKind, Kind, ParameterKind
 from _griffe.models import (
     Alias,
     Attribute,
@@ -83,11 +84,58 @@ class JSONEncoder(json.JSONEncoder):
             return _json_encoder_map.get(type(obj), super().default)(obj)
 
 
+# Section classes, and classes of the elements listed in their value (if any), for each kind of docstring section.
+_docstring_section_map: dict[DocstringSectionKind, tuple[type, type | None]] = {
+    DocstringSectionKind.text: (docstrings.DocstringSectionText, None),
+    DocstringSectionKind.parameters: (docstrings.DocstringSectionParameters, docstrings.DocstringParameter),
+    DocstringSectionKind.other_parameters: (docstrings.DocstringSectionOtherParameters, docstrings.DocstringParameter),
+    DocstringSectionKind.raises: (docstrings.DocstringSectionRaises, docstrings.DocstringRaise),
+    DocstringSectionKind.warns: (docstrings.DocstringSectionWarns, docstrings.DocstringWarn),
+    DocstringSectionKind.returns: (docstrings.DocstringSectionReturns, docstrings.DocstringReturn),
+    DocstringSectionKind.yields: (docstrings.DocstringSectionYields, docstrings.DocstringYield),
+    DocstringSectionKind.receives: (docstrings.DocstringSectionReceives, docstrings.DocstringReceive),
+    DocstringSectionKind.examples: (docstrings.DocstringSectionExamples, None),
+    DocstringSectionKind.attributes: (docstrings.DocstringSectionAttributes, docstrings.DocstringAttribute),
+    DocstringSectionKind.functions: (docstrings.DocstringSectionFunctions, docstrings.DocstringFunction),
+    DocstringSectionKind.classes: (docstrings.DocstringSectionClasses, docstrings.DocstringClass),
+    DocstringSectionKind.modules: (docstrings.DocstringSectionModules, docstrings.DocstringModule),
+    DocstringSectionKind.deprecated: (docstrings.DocstringSectionDeprecated, None),
+    DocstringSectionKind.admonition: (docstrings.DocstringSectionAdmonition, None),
+}
+
+
+def _load_docstring_section(section: dict[str, Any]) -> docstrings.DocstringSection:
+    kind = DocstringSectionKind(section["kind"])
+    section_class, element_class = _docstring_section_map[kind]
+    value, title = section["value"], section.get("title")
+    if element_class is not None:
+        return section_class([element_class(**element) for element in value], title)
+    if kind is DocstringSectionKind.examples:
+        return section_class([(DocstringSectionKind(sub_kind), text) for sub_kind, text in value], title)
+    if kind in {DocstringSectionKind.deprecated, DocstringSectionKind.admonition}:
+        return section_class(value["annotation"], value["description"], title)
+    return section_class(value, title)
+
+
 def _load_docstring(obj_dict: dict) -> Docstring | None:
     if "docstring" in obj_dict:
-        # Parsed sections (full dumps) are derived data: they are computed again on demand.
-        return Docstring(**{key: value for key, value in obj_dict["docstring"].items() if key != "parsed"})
+        docstring_dict = dict(obj_dict["docstring"])
+        # Parsed sections are only present in full dumps: the parser itself is not serialized,
+        # so we restore the sections instead of parsing the docstring again.
+        parsed = docstring_dict.pop("parsed", None)
+        docstring = Docstring(**docstring_dict)
+        if parsed is not None:
+            docstring.parsed = [_load_docstring_section(section) for section in parsed]
+        return docstring
     return None
+
+
+def _attach_parent_to_docstring(obj: Module | Class | Function | Attribute) -> None:
+    # Names in annotations of parsed docstring sections are resolved in the scope of the documented object.
+    if obj.docstring and "parsed" in vars(obj.docstring):
+        for section in obj.docstring.parsed:
+            for element in section.value if isinstance(section.value, list) else [section.value]:
+                _attach_parent_to_expr(getattr(element, "annotation", None), obj)  # type: ignore[arg-type]
 
 
 def _load_decorators(obj_dict: dict) -> list[Decorator]:
@@ -189,6 +237,7 @@ def _load_module(obj_dict: dict[str, Any]) -> Module:
         module.set_member(module_member.name, module_member)
         _attach_parent_to_exprs(module_member, module)
     module.labels |= set(obj_dict.get("labels", ()))
+    _attach_parent_to_docstring(module)
     return module
 
 
@@ -212,6 +261,7 @@ def _load_class(obj_dict: dict[str, Any]) -> Class:
         _attach_parent_to_exprs(class_member, class_)
     class_.labels |= set(obj_dict.get("labels", ()))
     _attach_parent_to_exprs(class_, class_)
+    _attach_parent_to_docstring(class_)
     return class_
 
 
@@ -236,6 +286,7 @@ def _load_function(obj_dict: dict[str, Any]) -> Function:
         function.set_member(function_member.name, function_member)
         _attach_parent_to_exprs(function_member, function)
     function.labels |= set(obj_dict.get("labels", ()))
+    _attach_parent_to_docstring(function)
     return function
 
 
@@ -249,6 +300,7 @@ def _load_attribute(obj_dict: dict[str, Any]) -> Attribute:
         annotation=obj_dict.get("annotation"),
     )
     attribute.labels |= set(obj_dict.get("labels", ()))
+    _attach_parent_to_docstring(attribute)
     return attribute
 
 
